@@ -602,3 +602,284 @@ def expand_repl(repl, m, ngroups):
         out.append(repl[i])
         i += 1
     return "".join(out)
+
+
+# ==========================================================================================
+# Go's replace-all iteration rule (the docs name Go's regexp library as the engine; its
+# documented rule for ReplaceAll: matches are found left to right, an empty match adjacent to
+# the preceding match is not replaced, after an empty match the search advances by one
+# CHARACTER).  Python's re.sub differs exactly there (since 3.7 it does replace an empty match
+# adjacent to a preceding non-empty one), so the rule is spelled out here on top of rx.search.
+
+def go_replace_all(rx, s, repl_fn, count=None):
+    """rx: compiled Python pattern; repl_fn(match) -> str | DECLINE.  count=1 -> first match only."""
+    out = []
+    last = 0
+    pos = 0
+    n = len(s)
+    done = 0
+    while pos <= n:
+        m = rx.search(s, pos)
+        if m is None:
+            break
+        a0, a1 = m.span()
+        out.append(s[last:a0])
+        if a1 > last or a0 == 0:
+            e = repl_fn(m)
+            if e is DECLINE:
+                return DECLINE
+            out.append(e)
+            done += 1
+        last = a1
+        if count is not None and done >= count:
+            break
+        pos = pos + 1 if pos + 1 > a1 else a1
+    out.append(s[last:])
+    return "".join(out)
+
+
+def c_unescape(t):
+    """The C-style backslash escapes the sub/gsub/ssub verb usage documents for its string
+    arguments ("such as \\n, \\t, and \\x1f. Write \\\\ to get a literal backslash").  Anything
+    else after a backslash is outside what the usage text defines -> DECLINE, except a backslash
+    followed by a digit (the \\0..\\9 capture references of the replacement language), kept."""
+    out = []
+    i = 0
+    while i < len(t):
+        ch = t[i]
+        if ch != "\\":
+            out.append(ch)
+            i += 1
+            continue
+        if i + 1 >= len(t):
+            return DECLINE
+        nx = t[i + 1]
+        if nx in "nt\\":
+            out.append({"n": "\n", "t": "\t", "\\": "\\"}[nx])
+            i += 2
+        elif nx == "x" and re.fullmatch(r"[0-9a-fA-F]{2}", t[i + 2:i + 4]) and int(t[i + 2:i + 4], 16) < 0x80:
+            out.append(chr(int(t[i + 2:i + 4], 16)))
+            i += 4
+        elif nx in "0123456789":
+            out.append(ch + nx)
+            i += 2
+        else:
+            return DECLINE
+    return "".join(out)
+
+
+# ==========================================================================================
+# hostile regex pool: backslash sequences that are regex syntax (and look like C escapes),
+# anchors, POSIX / Perl / Unicode classes, flags, quoting, empty-matching pieces.  Each atom is
+# (Go spelling, Python spelling or None when Python has no equivalent, capture groups, can it
+# match the empty string, sample subject pieces).  The Python spellings use explicit ASCII
+# classes for \d \w \s \b (RE2's are ASCII-only) and \Z for Go's $ / \z (Python's $ also matches
+# before a trailing newline).
+
+_W = "0-9A-Za-z_"
+PY_WB = "(?:(?<![%s])(?=[%s])|(?<=[%s])(?![%s]))" % (_W, _W, _W, _W)
+PY_NWB = "(?:(?<![%s])(?![%s])|(?<=[%s])(?=[%s]))" % (_W, _W, _W, _W)
+
+_SAME = object()
+
+
+def _atoms():
+    A = []
+
+    def add(go, py, groups=0, empty=False, samples=()):
+        A.append((go, go if py is _SAME else py, groups, empty, list(samples)))
+
+    # word boundaries
+    add("\\b", PY_WB, 0, True, ["cat", " ", "é"])
+    add("\\B", PY_NWB, 0, True, ["concat", "  "])
+    add("\\bcat\\b", PY_WB + "cat" + PY_WB, 0, False, ["cat", "concat", "cat cat", "bobcat", "cat.", "catécat", "ca\x08t"])
+    add("\\bcat", PY_WB + "cat", 0, False, ["cat", "concat", "bobcat cat", "\x08cat"])
+    add("t\\b", "t" + PY_WB, 0, False, ["cat", "cats", "t\x08"])
+    add("\\b\\w+\\b", PY_WB + "[%s]+" % _W + PY_WB, 0, False, ["cat dog", "a_1-b"])
+    add("o\\Bn", "o" + PY_NWB + "n", 0, False, ["on", "concat"])
+    # the escaped backslash
+    add("\\\\", _SAME, 0, False, ["\\", "a\\b", "C:\\tmp", "\\\\"])
+    add("C:\\\\tmp", _SAME, 0, False, ["C:\\tmp", "C:\tmp", "C:tmp"])
+    add("a\\\\b", _SAME, 0, False, ["a\\b", "ab", "a\x08", "a b"])
+    add("\\\\d", _SAME, 0, False, ["\\d", "5", "\\5"])
+    add("\\\\\\\\", _SAME, 0, False, ["\\\\", "\\", "\\\\\\"])
+    add("\\\\.", _SAME, 0, False, ["\\x", "\\.", ".", "x"])
+    add("\\\\n", _SAME, 0, False, ["\\n", "n", "a\\nb"])
+    add("\\\\?x", _SAME, 0, False, ["\\x", "x", "?x"])
+    add("[\\\\]", _SAME, 0, False, ["\\", "a\\b"])
+    add("[^\\\\]", _SAME, 0, False, ["\\", "a\\b"])
+    add("[\\\\/]+", _SAME, 0, False, ["a/b", "a\\b", "\\/\\"])
+    # escaped metacharacters
+    for ch, smp in (("?", ["?", "a?b", "ok?"]), ("|", ["|", "a|b"]), ("{", ["{", "a{2}"]), ("}", ["}", "{}"]),
+                    (".", [".", "x.y", "xzy"]), ("*", ["*", "a*"]), ("+", ["+", "a+b"]), ("(", ["(", "f(x)"]),
+                    (")", [")", "f(x)"]), ("[", ["[", "a[1]"]), ("]", ["]", "a[1]"]), ("^", ["^", "a^b"]), ("$", ["$", "a$"])):
+        add("\\" + ch, _SAME, 0, False, smp)
+    add("k\\?", _SAME, 0, False, ["k?", "kk", "k", "?"])
+    add("ok\\?", _SAME, 0, False, ["ok?", "ok", "o", "no ok"])
+    add("a\\|b", _SAME, 0, False, ["a|b", "a", "b"])
+    add("x\\.y", _SAME, 0, False, ["x.y", "xzy"])
+    # hex / octal escapes, of metacharacters and of ordinary characters
+    for code, smp in ((0x2e, [".", "x.y", "xzy"]), (0x5c, ["\\", "a\\b"]), (0x3f, ["?", "a?"]), (0x2a, ["*", "a*"]),
+                      (0x7c, ["|", "a|b"]), (0x28, ["(", "(a"]), (0x29, [")", "a)"]), (0x5b, ["[", "[a"]), (0x24, ["$", "a$"]),
+                      (0x5e, ["^", "^a"]), (0x2b, ["+", "a+"]), (0x41, ["A", "a"]), (0x20, [" ", "a b"]), (0x09, ["\t", "t"]),
+                      (0x7b, ["{", "{}"])):
+        add("\\x%02x" % code, _SAME, 0, False, smp)
+        add("\\%03o" % code, _SAME, 0, False, smp)
+    add("\\x{2e}", "\\x2e", 0, False, [".", "x.y", "xzy"])
+    add("\\x{e9}", "\\u00e9", 0, False, ["é", "e", "É"])
+    add("\\x{1F600}", "\\U0001F600", 0, False, ["😀", "x"])
+    add("x\\x2ey", _SAME, 0, False, ["x.y", "xzy"])
+    add("a\\052", _SAME, 0, False, ["a*", "aaa", "b"])
+    add("[\\x2e\\x5c]", _SAME, 0, False, [".", "\\", "x"])
+    # C escapes that mean the same to the regex engine
+    for e, c in (("\\t", "\t"), ("\\n", "\n"), ("\\r", "\r"), ("\\f", "\f"), ("\\v", "\v"), ("\\a", "\a")):
+        add(e, _SAME, 0, False, [c, "a" + c + "b", e[1]])
+    # Perl classes, POSIX classes, Unicode classes
+    add("\\d", "[0-9]", 0, False, ["5", "a1", "d"])
+    add("\\d+", "[0-9]+", 0, False, ["55", "a12b3", "d"])
+    add("\\w+", "[%s]+" % _W, 0, False, ["cat", "a_1", "é"])
+    add("\\s", "[\\t\\n\\f\\r ]", 0, False, [" ", "\t", "a b", "s"])
+    add("\\D", "[^0-9]", 0, False, ["5", "a1"])
+    add("\\W", "[^%s]" % _W, 0, False, ["-", "é", "a"])
+    add("\\S+", "[^\\t\\n\\f\\r ]+", 0, False, ["a b", " x "])
+    add("[\\d\\-x]", "[0-9\\-x]", 0, False, ["1-x", "d"])
+    add("[^\\s\\d]", "[^\\t\\n\\f\\r 0-9]", 0, False, ["a 1", "é"])
+    for nm, cls in (("alpha", "A-Za-z"), ("digit", "0-9"), ("upper", "A-Z"), ("lower", "a-z"), ("alnum", "0-9A-Za-z"),
+                    ("space", "\\t\\n\\v\\f\\r "), ("punct", "!-/:-@\\[-`{-~"), ("word", _W), ("xdigit", "0-9A-Fa-f")):
+        add("[[:%s:]]" % nm, "[%s]" % cls, 0, False, ["aB1", " -_", "é.", "\t"])
+        add("[[:^%s:]]+" % nm, "[^%s]+" % cls, 0, False, ["aB1", " -_", "é."])
+    add("[[:alpha:][:digit:]_]+", "[A-Za-z0-9_]+", 0, False, ["a_1 b", "é"])
+    add("\\pL", None, 0, False, ["aé日", "1"])
+    add("\\p{Lu}", None, 0, False, ["aÉB", "x"])
+    add("\\PL+", None, 0, False, ["a1-é", "x"])
+    add("\\p{Greek}", None, 0, False, ["αβ", "a"])
+    # classes with escapes inside
+    add("[\\]]", _SAME, 0, False, ["]", "a]"])
+    add("[\\^a]", _SAME, 0, False, ["^", "a", "b"])
+    add("[a\\-c]", _SAME, 0, False, ["a", "-", "b", "c"])
+    add("[.?*]", _SAME, 0, False, [".", "?", "*", "x"])
+    add("[\\t ]+", _SAME, 0, False, [" \t ", "a b"])
+    add("[^a-z]", _SAME, 0, False, ["aBc", "é"])
+    add("[é日]", _SAME, 0, False, ["é", "日本", "e"])
+    # anchors
+    add("^", _SAME, 0, True, ["a", ""])
+    add("$", "\\Z", 0, True, ["a", ""])
+    add("^$", "^\\Z", 0, True, ["", "a"])
+    add("\\A", _SAME, 0, True, ["a"])
+    add("\\z", "\\Z", 0, True, ["a"])
+    add("^a", _SAME, 0, False, ["ab", "ba", "aa"])
+    add("a$", "a\\Z", 0, False, ["ba", "ab", "aa"])
+    add("^.", _SAME, 0, False, ["é", "ab"])
+    add(".$", ".\\Z", 0, False, ["aé", "ab"])
+    # flags, quoting, named groups
+    add("(?i:cat)", _SAME, 0, False, ["CAT", "Cat", "cat", "cot"])
+    add("(?i:é)", _SAME, 0, False, ["É", "é", "e"])
+    add("(?s:.)", _SAME, 0, False, ["a", "\n"])
+    add("(?U:a+)", "a+?", 0, False, ["aaa", "ba"])
+    add("(?U:a+?)", "a+", 0, False, ["aaa", "ba"])
+    add("\\Qa.b\\E", "a\\.b", 0, False, ["a.b", "axb"])
+    add("\\Q?\\E", "\\?", 0, False, ["?", "a?"])
+    add("\\Q(x)\\E", "\\(x\\)", 0, False, ["(x)", "x"])
+    add("(?P<w>[a-c]+)", _SAME, 1, False, ["abc", "cab", "x"])
+    # groups, alternation, quantifiers
+    add("(cat|dog)", _SAME, 1, False, ["cat", "dog", "cot"])
+    add("(c)(a)(t)", _SAME, 3, False, ["cat", "ct"])
+    add("(a)|b", _SAME, 1, False, ["a", "b", "ab"])
+    add("(ab)+", _SAME, 1, False, ["abab", "aba"])
+    add("(?:ab)*c", _SAME, 0, False, ["ababc", "c", "ab"])
+    add("a{2}", _SAME, 0, False, ["aaa", "aaaa", "a"])
+    add("a{1,}", _SAME, 0, False, ["aaa", "ba"])
+    add("a{,2}", "a\\{,2\\}", 0, False, ["a{,2}", "aa"])
+    add("[a-c]{2,3}?", _SAME, 0, False, ["abcab", "a"])
+    add(".", _SAME, 0, False, ["a", "é", "😀"])
+    add(".+", _SAME, 0, False, ["a b", "é"])
+    add("([a-z]+)-([0-9]+)", _SAME, 2, False, ["ab-12", "x-1 y-2", "ab12"])
+    add("(.)(.)", _SAME, 2, False, ["ab", "é日", "a"])
+    add("cat", _SAME, 0, False, ["cat", "concat", "Cat"])
+    add("é", _SAME, 0, False, ["é", "e\u0301", "É"])
+    add("日本", _SAME, 0, False, ["日本語", "日"])
+    # pieces that can match the empty string
+    add("x*", _SAME, 0, True, ["xx", "axb", "é"])
+    add("a?", _SAME, 0, True, ["aa", "ba", "日"])
+    add(".*", _SAME, 0, True, ["ab", "é"])
+    add(".*?", _SAME, 0, True, ["ab", "é"])
+    add("a*?", _SAME, 0, True, ["aa", "b"])
+    add("(a|)", _SAME, 1, True, ["aa", "ba", "é日"])
+    add("(|a)", _SAME, 1, True, ["aa", "ba"])
+    add("()", _SAME, 1, True, ["ab", "é"])
+    add("(?:)", _SAME, 0, True, ["ab", "日本"])
+    add("[0-9]*", _SAME, 0, True, ["12", "a1b", "é2"])
+    add("(x*)", _SAME, 1, True, ["xx", "axb", "éx日"])
+    add("é*", _SAME, 0, True, ["éé", "aéb", "日é"])
+    add("\\d*", "[0-9]*", 0, True, ["12", "a1b"])
+    add("(a*)(b*)", _SAME, 2, True, ["aabb", "ba", "é"])
+    add("a*|b", _SAME, 0, True, ["ab", "ba", "b"])
+    return A
+
+
+HOSTILE_ATOMS = _atoms()
+HOSTILE_FILL = ["a", "b", "cat", "concat", " ", "  ", "-", "_", ".", "?", "\\", "x", "1", "12", "A", "é", "É", "日本", "😀",
+                "|", "(", ")", "*", "+", "\t", "\x08", "k", "ok", "d", "n", "t", "$", "^", "{", "}", "[", "]", "/", ","]
+
+
+def hostile_regex(rng):
+    """-> dict(go, py|None, flags, groups, empty, samples, miller_ci, quoted)
+    go: the regex text handed to Miller (possibly wrapped in the Miller "..." / "..."i delimiters);
+    py + flags: the same language for Python's re, or None."""
+    r = rng.random()
+    k = 1 if r < 0.6 else 2 if r < 0.85 else 3
+    parts = [rng.choice(HOSTILE_ATOMS) for _ in range(k)]
+    shape = rng.random()
+    go_parts, py_parts = [], []
+    groups = 0
+    for go, py, g, emp, smp in parts:
+        groups += g
+        go_parts.append(go)
+        py_parts.append(py)
+    have_py = all(p is not None for p in py_parts)
+    top_alt = lambda s: "|" in re.sub(r"\\.|\[[^\]]*\]|\([^)]*\)", "", s)
+    if k >= 2 and shape < 0.25:
+        go, py = "|".join(go_parts), ("|".join(py_parts) if have_py else None)
+        empty = any(p[3] for p in parts)
+    else:
+        # an atom with a top-level alternation is grouped before it is concatenated
+        gp = ["(?:" + s + ")" if (k > 1 and top_alt(s)) else s for s in go_parts]
+        pp = ["(?:" + s + ")" if (k > 1 and top_alt(s)) else s for s in py_parts] if have_py else None
+        go, py = "".join(gp), ("".join(pp) if have_py else None)
+        empty = all(p[3] for p in parts)
+        if shape > 0.88 and not any(p[3] for p in parts):
+            # quantify the whole (never a body that can match the empty string: engines differ on empty iterations)
+            q = rng.choice(["+", "?", "*", "{2}", "+?", "{1,2}"])
+            cap = rng.random() < 0.5
+            go = ("(" if cap else "(?:") + go + ")" + q
+            py = (("(" if cap else "(?:") + py + ")" + q) if py is not None else None
+            if cap:
+                groups = groups + 1     # the new group is number 1: references shift, handled by the caller through `groups` only
+            empty = q in ("?", "*")
+    flags = 0
+    quoted = None
+    w = rng.random()
+    if w < 0.08:
+        go = "(?i)" + go
+        flags = re.IGNORECASE
+    elif w < 0.18:
+        quoted = '"%s"i'
+        flags = re.IGNORECASE
+    elif w < 0.24:
+        quoted = '"%s"'
+    samples = [s for p in parts for s in p[4]]
+    return {"go": (quoted % go) if quoted else go, "bare": go, "py": py, "flags": flags, "groups": groups, "empty": empty,
+            "samples": samples, "quoted": quoted}
+
+
+def hostile_subject(rng, samples):
+    n = rng.choice([0, 1, 1, 2, 2, 3, 4, 6])
+    out = []
+    for _ in range(n):
+        out.append(rng.choice(samples) if (samples and rng.random() < 0.6) else rng.choice(HOSTILE_FILL))
+        if rng.random() < 0.3:
+            out.append(rng.choice([" ", " ", "-", ""]))
+    s = "".join(out)
+    if s.endswith("\n"):
+        s += "z"
+    return s
